@@ -23,6 +23,8 @@ def Tok.kt (t : Tok) : TK × List Char := (t.kind, t.text)
 /-- `ts` has the kinds and texts of `spec`, token for token (positions free) -/
 def Spells (ts spec : List Tok) : Prop := ts.map Tok.kt = spec.map Tok.kt
 
+instance (ts spec : List Tok) : Decidable (Spells ts spec) := by unfold Spells; infer_instance
+
 /-- a token of the printer (the position is assigned by the tiling, not by the printer) -/
 def tk (k : TK) (s : List Char) : Tok := ⟨k, s, 0⟩
 
